@@ -725,26 +725,49 @@ func (s *listSource) nextFrame(int) (string, bool) {
 	return "", false
 }
 
-// readReplay: JSON {"ops":[...]} or plain text, one op per line (text after a TAB ignored).
-func readReplay(path string) ([]string, error) {
+// replayOpsFor reads a replay file (JSON {"driver":…, "ops":[…]} as written by ./check, or plain
+// text with one op per line, text after a TAB ignored) and returns its ops if they belong to this
+// stream: comment lines are dropped; a file recorded for the other C15 stream (driver field, or
+// the shape of its init op: C15Run's init carries the first layout `T TREE`) yields no ops.
+func replayOpsFor(path, me string) ([]string, error) {
 	b, err := os.ReadFile(path)
 	if err != nil {
 		return nil, err
 	}
 	var rp struct {
-		Ops []string `json:"ops"`
+		Driver string   `json:"driver"`
+		Ops    []string `json:"ops"`
 	}
 	if err := json.Unmarshal(b, &rp); err != nil {
 		sc := bufio.NewScanner(strings.NewReader(string(b)))
 		sc.Buffer(make([]byte, 1<<20), 1<<24)
 		for sc.Scan() {
-			l := strings.SplitN(sc.Text(), "\t", 2)[0]
-			if strings.TrimSpace(l) != "" {
-				rp.Ops = append(rp.Ops, l)
-			}
+			rp.Ops = append(rp.Ops, strings.SplitN(sc.Text(), "\t", 2)[0])
 		}
 	}
-	return rp.Ops, nil
+	if rp.Driver != "" && rp.Driver != me {
+		return nil, nil
+	}
+	var ops []string
+	for _, op := range rp.Ops {
+		f := strings.Fields(op)
+		if len(f) == 0 || (strings.HasPrefix(f[0], "#") && f[0] != "#case") {
+			continue
+		}
+		if f[0] == "init" {
+			hasTree := false
+			for _, t := range f {
+				if t == "T" {
+					hasTree = true
+				}
+			}
+			if hasTree != (me == "C15Run") {
+				return nil, nil
+			}
+		}
+		ops = append(ops, op)
+	}
+	return ops, nil
 }
 
 // ---------------------------------------------------------------------------------------------
@@ -1109,9 +1132,13 @@ func run(r *hx.Run) error {
 	}
 
 	if r.Replay != "" {
-		ops, err := readReplay(r.Replay)
+		ops, err := replayOpsFor(r.Replay, "C15Run")
 		if err != nil {
 			return err
+		}
+		if len(ops) == 0 {
+			r.Case("replay-of-the-other-stream")
+			return nil
 		}
 		// split at #case lines; ops before the first #case line form a case of their own
 		id, cur, seen := "replay", []string(nil), false
